@@ -49,7 +49,7 @@ CHECKS = {
         text='Table and sibling agreement for the JWK importer: which member feeds which provider parameter is extracted from the '
              'importer\'s paths and compared with RFC 7518 6.3 / RFC 8037 and, as inverse, with the exporter in tools/key2jwk.c; every '
              'decoded buffer is consumed with the length produced by decoding that same buffer; each importer reads only member names of '
-             'its own key type; key_ops/use maps, oct bits = 8 x length, private detection, curve names. On every successful exit of each asymmetric importer item->bits is exactly what EVP_PKEY_get_size_t_param(pkey, "bits") reported. Key alg attribute table; RSA vs RSA-PSS type entered at jwk_process_one; is_private_key set exactly on the paths that fed the private component.',
+             'its own key type; key_ops/use maps, oct bits = 8 x length, private detection, curve names. On every successful exit of each asymmetric importer item->bits is exactly what EVP_PKEY_get_size_t_param(pkey, "bits") reported. Key alg attribute table; RSA vs RSA-PSS type entered at jwk_process_one; is_private_key set exactly on the paths that fed the private component; item->curve and the bound of the copy that fills it hold the longest supported curve name.',
         design_ref='DESIGN.md section 3 C08',
         note='NOT decided: equality of the key numbers and the PEM round trip (numeric, inside OpenSSL).',
         technique='table extraction and sibling cross-check from abstract-interpreter paths and the AST',
@@ -80,7 +80,7 @@ CHECKS = {
         text='For the four tools: agreement of long-option table, short option string, dispatch switch and usage text; jwt-verify\'s exit '
              'expression is 0 exactly for a zero failure count and never wraps modulo 256, the counter being the number of failed '
              'process_one calls; key2jwk writes EC x/y/d with a minimum width of ceil(bits/8) octets; jwk2key writes the item\'s own '
-             'PEM/octets. key2jwk raw keys: k encodes exactly the bytes read; jwt-generate: integer claim values are not narrowed.',
+             'PEM/octets. key2jwk raw keys: k encodes exactly the bytes read; jwt-generate: integer claim values are not narrowed. process_one is evaluated on every value jwt_checker_verify can return (read off the library): 0 for success, 1..255 for failure.',
         design_ref='DESIGN.md section 3 C20',
         note='NOT decided: behaviour of the built binaries (process level).',
         technique='table agreement over the AST + expression evaluation + provenance by abstract interpretation',
@@ -104,7 +104,7 @@ CHECKS = {
              'jwk_process_values are analysed as entries with the memory rules (json_string_value dereferenced only after a string type '
              'check, no unassigned length, matching release families) and the per-item contract at every exit (flag with non-empty message, '
              'or key material stored); jwk_process_one and the loaders are analysed on top of the validated outcome summaries: not JSON => '
-             'set error and no item, otherwise one append per parsed item. Flags of every jansson load call (no JSON_DISABLE_EOF_CHECK / JSON_ALLOW_NUL); importer summaries are built from the importers\' real exit classes.',
+             'set error and no item, otherwise one append per parsed item. Flags of every jansson load call (no JSON_DISABLE_EOF_CHECK / JSON_ALLOW_NUL); importer summaries are built from the importers\' real exit classes. The loaders are run from every error state (flag x message) the set API can leave a set in (closure over the functions that write it).',
         design_ref='DESIGN.md section 3 C07',
         note='Not decided: what OpenSSL does with hostile numbers, jansson\'s parser, bounds inside base64. The keys-array loop is analysed '
              'by one iteration under havoc. Fault model: allocations succeed.',
@@ -142,18 +142,20 @@ CHECKS = {
         text='Decides the structural half of race freedom: for every function and library call reachable from verify/generate through '
              'either provider, no store to a global/static, to a shared jwk_item/jwk_set/ops table, and no non-re-entrant library entry '
              'point (strtok, ctime, one-shot OpenSSL digests with a NULL output buffer, process-wide setters); the globals read there '
-             'are written only by the documented process-wide setters, which are not reachable from those entry points.',
+             'are written only by the documented process-wide setters, which are not reachable from those entry points. On every path of '
+             'the sign/verify routines of both providers a handle stored in the shared key item is released only against a reference '
+             'taken on that path and never handed to a mutating call.',
         design_ref='DESIGN.md section 3 C18',
         note='Schedules are not explored; thread-safety of OpenSSL/GnuTLS/jansson on shared read-only keys is trusted; equality of '
              'verdicts/tokens with sequential execution follows only in as far as no shared state is written.',
-        technique='who-may-write effect analysis + non-re-entrant API rule on the resolved call graph',
+        technique='who-may-write effect analysis + non-re-entrant API rule on the resolved call graph; borrowed-handle typestate on provider paths',
     ),
     'C19': dict(
         category='proof',
         text='Taint typestate on every path of jwt_checker_verify with a callback (both providers): the JSON trees reachable from the '
              'token object when the callback runs are callback-mutable; afterwards any library query, read or write through them is a '
              'violation (only release is allowed) until the field is re-assigned from a snapshot taken before the callback. Non-zero '
-             'callback result => failing call with flag and message; callback-selected key/alg pass __setkey_check; the public token '
+             'callback result => failing call with flag and message; a callback-selected key/alg pair outside the setkey table is refused by some layer before a verdict (composition of jwt_checker_verify with the policy table); the public token '
              'API cannot write jwt->alg/key. A callback failure is any non-zero value; a configured callback is always consulted before the verdict.',
         design_ref='DESIGN.md section 3 C19',
         note='Trusted: clang front end, engine, API model. The only state a callback can change is what the public jwt_t API reaches '
@@ -194,8 +196,9 @@ CHECKS = {
              'verification policy jwt_verify_complete/__verify_config_post (21 600 cells), jwt_alg_str/jwt_str_alg/jwt_parse_head '
              '(15 names + 38 near misses, comparison loop interpreted concretely) and the key size/kind gate of jwt_sign and '
              'jwt_verify_sig (3 360 cells) are evaluated cell by cell by the abstract interpreter and compared with oracle tables '
-             'from RFC 7518 and the documented setkey table; plus a must-pass-through rule that the (alg,key) pair used after the '
-             'callback is the one __setkey_check admitted. Obligations = cells + path sinks; exhaustive over the partition. The key\'s own alg attribute (unknown names stay INVAL), the token object\'s key equal to the admitted key, a configured callback consulted before the verdict, and the compare primitive behind the name tables are decided too.',
+             'from RFC 7518 and the documented setkey table; plus the composition with the caller: jwt_checker_verify is run for every (alg,key) pair a callback '
+             'can leave in its config or setkey can store, and a pair outside the setkey table must be refused by some layer before a verdict '
+             '(builder: the pair used after the callback is the one __setkey_check admitted). Obligations = cells + path sinks; exhaustive over the partition. The key\'s own alg attribute (unknown names stay INVAL), the key handed to the signature check equal to the selected key, a configured callback consulted before the verdict, and the compare primitive behind the name tables are decided too.',
         design_ref='DESIGN.md section 3 C02, appendix A.1-A.3',
         note='Trusted: clang front end, engine, API model. The partition of integer inputs is sound because they are only compared '
              'with constants. Family mismatches among asymmetric key types are left to the providers/crypto libraries (the unedited '
@@ -227,7 +230,7 @@ CHECKS = {
         category='proof',
         text='Every path of jwt_checker_verify and jwt_builder_generate (both providers, any callback, any allocation '
              'outcome, any library result) is enumerated by a path-sensitive abstract interpreter; at each exit the '
-             'returned value must agree with the error flag and message state. Obligations = path exits; all discharged. The keyring-item contract (C07) and the code/value->error agreement of the header/claim calls (C15 tables) are part of this check.',
+             'returned value must agree with the error flag and message state. Obligations = path exits; all discharged. The keyring-item contract (C07) and the code/value->error agreement of the header/claim calls (C15 tables) are part of this check. The entry states of the object (flag x message empty/non-empty) are the closure of the clean state under every API function that writes the error state, found by the effect analysis.',
         design_ref='DESIGN.md section 3 C14',
         note='Trusted: clang front end, API model (lib/model.py), engine (lib/interp.py); base64 helper summaries are '
              're-validated against the implementation on every run. Not decided: none material (finite path sets); '
